@@ -139,7 +139,10 @@ class C02(Sim):
                 key = rng.choice(["lock_previous", "lock_range", "default", "enabled"])
                 v = (rng.random() < 0.6) if key != "default" else fenc(rng.choice([float("nan"), 0.0, 0.5, 2.0, -1.0]))
                 ops.append({"op": "set", "out": rng.randrange(2), "key": key, "v": v})
-        yield {"arm": "clean", "config": sp, "ops": ops}
+        tr = {"arm": "clean", "config": sp, "ops": ops}
+        if rng.random() < 0.03:
+            tr["debugging"] = True
+        yield tr
 
     def _huge_case(self, rng) -> dict:
         """One batch of more than 8192 rows (NumPy's buffered iterators and block-wise loops work in chunks of 8192
@@ -183,6 +186,9 @@ class C02(Sim):
             if log is not None:
                 log.append(line)
 
+        if trace.get("debugging"):
+            fl.settings.debugging = True
+            st.hit("probes.library_debug_mode")
         try:
             A, B = S.build(sp), S.build(sp)
         except Exception as e:  # invalid spec (only reachable through shrinking / hand edits)
